@@ -463,7 +463,7 @@ def replay(chk, path):
     if rp0.get('kind') == 'proof-or-correspondence-broken':
         print('replay: nothing executable in this replay file (proof/correspondence breakage): see its log field'); return
     cj = json.load(open(path))['replay']['case']
-    frames = [np.array(f, dtype=float).reshape(len(f), -1) for f in cj['frames']]
+    frames = linkgen.frames_from_json(cj['frames'])
     ndim = max([f.shape[1] for f in frames if f.size] or [1])
     c = dict(frames=[f.reshape(len(f), ndim) for f in frames], sr=(tuple(Fraction(x) for x in cj['search_range']) if isinstance(cj['search_range'], list) else Fraction(cj['search_range'])), memory=cj['memory'], ndim=ndim, max_size=cj['max_size'],
              strategy=cj['link_strategy'], step=Fraction(cj['adaptive_step']), stop_rel=Fraction(cj['adaptive_stop_rel']), plain_limit=cj.get('plain_limit'))
